@@ -1,0 +1,39 @@
+//go:build verif
+
+package tmjson
+
+import (
+	"github.com/gordian-engine/gordian/gcrypto"
+	"github.com/gordian-engine/gordian/tm/tmconsensus"
+)
+
+// Verification hooks: aliases of the unexported intermediate JSON structs
+// and thin wrappers around the unexported conversion functions.
+// No behaviour is added.
+
+type (
+	VerifJSONHeader           = jsonHeader
+	VerifJSONProposedHeader   = jsonProposedHeader
+	VerifJSONCommittedHeader  = jsonCommittedHeader
+	VerifJSONValidator        = jsonValidator
+	VerifJSONCommitProof      = jsonCommitProof
+	VerifJSONSparseProof      = jsonSparseProof
+	VerifJSONProofEntry       = jsonProofEntry
+	VerifJSONConsensusMessage = jsonConsensusMessage
+)
+
+func VerifToJSONHeader(h tmconsensus.Header, reg *gcrypto.Registry) VerifJSONHeader {
+	return toJSONHeader(h, reg)
+}
+
+func VerifToJSONProposedHeader(ph tmconsensus.ProposedHeader, reg *gcrypto.Registry) VerifJSONProposedHeader {
+	return toJSONProposedHeader(ph, reg)
+}
+
+func VerifToJSONCommittedHeader(ch tmconsensus.CommittedHeader, reg *gcrypto.Registry) VerifJSONCommittedHeader {
+	return toJSONCommittedHeader(ch, reg)
+}
+
+func VerifToJSONCommitProof(p tmconsensus.CommitProof) VerifJSONCommitProof {
+	return toJSONCommitProof(p)
+}
